@@ -73,6 +73,12 @@ def run_shard_file(path: str) -> int:
     return 0
 
 
+def _session_note() -> str:
+    from .props import common
+
+    return common.SESSION_NOTE
+
+
 def anchor_files(prop: str) -> list[str]:
     try:
         for line in open(VERIF / "properties.jsonl"):
@@ -241,7 +247,8 @@ def main(argv=None) -> int:
         cov = {
             "evaluations": int(evaluations),
             "distinct_nontrivial": len(keys),
-            "rule": getattr(m, "RULE", ""),
+            "rule": getattr(m, "RULE", "") + (_session_note() if hasattr(m, "make_monitors")
+                                              else ""),
             "samples": samples[:4] or [{"note": "no sample recorded"}],
             "exhaustive": bool(getattr(m, "EXHAUSTIVE", {}).get(tier, False)),
             "counters": dict(sorted(counters.items())),
